@@ -2,7 +2,8 @@
     of Spec/C05.v, for all expressions and all texts (mutual induction over the four syntactic
     classes). *)
 From Coq Require Import ZArith NArith List Bool Lia.
-From Exactly Require Import Lib.Text Lib.TextLemmas Lib.Lines Model.Interval Model.TextOps Spec.C05
+From Exactly Require Import Lib.Text Lib.TextLemmas Lib.Lines Model.Interval Model.LineNums Model.TextOps Spec.C13b Spec.C05
+     Proofs.LineNumsExact
      Proofs.TextOpsEquals Proofs.TextOpsReplace Proofs.TextOpsStrip Proofs.TextOpsStripVariants.
 Import ListNotations.
 
@@ -37,6 +38,17 @@ Lemma wf_lines_filter_enumerate : forall (q : Z * text -> bool) ls n, wf_lines l
 Proof.
   induction ls as [|l ls IH]; intros n H; [reflexivity|].
   cbn [enumerate_from filter]. apply wf_lines_cons_inv in H as [[-> Hl]|[_ [Hl Hls]]].
+  - cbn. destruct (q (n, l)); [now apply wf_lines_single | reflexivity].
+  - destruct (q (n, l)).
+    + cbn [map snd]. apply wf_lines_cons_full; [exact Hl | now apply IH].
+    + now apply IH.
+Qed.
+
+Lemma wf_lines_filter_enum_from : forall (q : Z * text -> bool) ls n, wf_lines ls = true ->
+  wf_lines (map snd (filter q (enum_from n ls))) = true.
+Proof.
+  induction ls as [|l ls IH]; intros n H; [reflexivity|].
+  cbn [enum_from filter]. apply wf_lines_cons_inv in H as [[-> Hl]|[_ [Hl Hls]]].
   - cbn. destruct (q (n, l)); [now apply wf_lines_single | reflexivity].
   - destruct (q (n, l)).
     + cbn [map snd]. apply wf_lines_cons_full; [exact Hl | now apply IH].
@@ -253,6 +265,14 @@ Section Correct.
                   = filter (fun nl : Z * text => SL lm (fst nl) (line_contents (snd nl))) (enumerate_from text 1 (s_lines s))).
       { apply filter_ext_in'. intros nl _. apply IHlm. }
       rewrite E. split; [now apply wf_lines_filter_enumerate | reflexivity].
+    - (* TFilterLineNums *)
+      intros rs s Hwf.
+      change (ET (TFilterLineNums rs) s)
+        with (from_lines false (lines_or_index_error (line_nums_transform rs (s_lines s))) s).
+      change (ST (TFilterLineNums rs) (text_of s)) with (concat (line_nums_spec rs (lines_lf (text_of s)))).
+      rewrite line_nums_exact. unfold text_of. cbn [from_lines s_lines lines_or_index_error].
+      rewrite lines_lf_concat by exact Hwf. split; [|reflexivity].
+      unfold line_nums_spec. now apply wf_lines_filter_enum_from.
     - (* TSeq *)
       intros a IHa b IHb s Hwf. change (ET (TSeq a b) s) with (ET b (ET a s)).
       change (ST (TSeq a b) (text_of s)) with (ST b (ST a (text_of s))).
